@@ -1,4 +1,927 @@
+//! C20 — format autodetection picks the written format; conversions keep content.
+//!
+//! E1, complete products (all choices free):
+//!  * `*_container`: (format, compression) x record set: (W) an independent look at the magic
+//!    numbers (own gzip walk, no noodles reader) says the writer builder produced the requested
+//!    container.
+//!  * `*_detect`: (format, compression) x record set x delivery of the bytes to the reader (plain
+//!    slice; first `read` returns n bytes for every n in a range; 1 byte per read; irregular
+//!    sizes). (F) the reader forced to what the file is returns the written document at the
+//!    data-model level; (D) the hint-free reader returns exactly what the forced reader returns.
+//!    Which other forced settings also read the file is recorded as a path tag, not judged.
+//!  * `*_convert`: all ordered source -> target pairs x record set: reader(A) piped into writer(B)
+//!    (as in the util_*_rewrite examples), read again, equals the original document.
+
+use std::{
+    collections::HashMap,
+    io::{self, Read},
+    sync::{Arc, LazyLock, Mutex},
+};
+
+use gdocs::{aln, var};
+use noodles_fasta as fasta;
+use noodles_util::{
+    alignment::io::{CompressionMethod as ACm, Format as AFmt},
+    variant::io::{CompressionMethod as VCm, Format as VFmt},
+};
+use vmc::{
+    Chooser, Config, Outcome, Violation,
+    env::{ChunkReader, ReadMode},
+    oracle::bgzf as ob,
+};
+
+// ---------------------------------------------------------------------------------------------
+// settings
+
+#[derive(Clone, Copy, Debug, PartialEq, Eq)]
+enum Magic {
+    Text,
+    Bam,
+    Cram,
+    Bcf,
+}
+
+#[derive(Clone, Copy, Debug, PartialEq)]
+struct ASet {
+    name: &'static str,
+    fmt: AFmt,
+    cm: Option<ACm>,
+    magic: Magic,
+    /// false: `set_compression_method` is not called; `cm` is then the documented default
+    /// (BAM is BGZF-compressed by definition, SAM and CRAM are not)
+    explicit: bool,
+}
+
+#[derive(Clone, Copy, Debug, PartialEq)]
+struct VSet {
+    name: &'static str,
+    fmt: VFmt,
+    cm: Option<VCm>,
+    magic: Magic,
+    /// false: `set_compression_method` is not called (BCF is BGZF-compressed by definition)
+    explicit: bool,
+}
+
+const ASETS: [ASet; 6] = [
+    ASet { name: "sam", fmt: AFmt::Sam, cm: None, magic: Magic::Text, explicit: true },
+    ASet { name: "sam.gz", fmt: AFmt::Sam, cm: Some(ACm::Bgzf), magic: Magic::Text, explicit: true },
+    ASet { name: "bam", fmt: AFmt::Bam, cm: Some(ACm::Bgzf), magic: Magic::Bam, explicit: true },
+    ASet { name: "bam-raw", fmt: AFmt::Bam, cm: None, magic: Magic::Bam, explicit: true },
+    ASet { name: "cram", fmt: AFmt::Cram, cm: None, magic: Magic::Cram, explicit: true },
+    // the builders are expected to refuse this one
+    ASet { name: "cram.gz", fmt: AFmt::Cram, cm: Some(ACm::Bgzf), magic: Magic::Cram, explicit: true },
+];
+
+/// Builder defaults (compression method not set); container harness only.
+const ASETS_DEFAULT: [ASet; 3] = [
+    ASet { name: "sam(default-compression)", fmt: AFmt::Sam, cm: None, magic: Magic::Text, explicit: false },
+    ASet { name: "bam(default-compression)", fmt: AFmt::Bam, cm: Some(ACm::Bgzf), magic: Magic::Bam, explicit: false },
+    ASet { name: "cram(default-compression)", fmt: AFmt::Cram, cm: None, magic: Magic::Cram, explicit: false },
+];
+
+const VSETS_DEFAULT: [VSet; 2] = [
+    VSet { name: "vcf(default-compression)", fmt: VFmt::Vcf, cm: None, magic: Magic::Text, explicit: false },
+    VSet { name: "bcf(default-compression)", fmt: VFmt::Bcf, cm: Some(VCm::Bgzf), magic: Magic::Bcf, explicit: false },
+];
+
+const VSETS: [VSet; 4] = [
+    VSet { name: "vcf", fmt: VFmt::Vcf, cm: None, magic: Magic::Text, explicit: true },
+    VSet { name: "vcf.gz", fmt: VFmt::Vcf, cm: Some(VCm::Bgzf), magic: Magic::Text, explicit: true },
+    VSet { name: "bcf", fmt: VFmt::Bcf, cm: Some(VCm::Bgzf), magic: Magic::Bcf, explicit: true },
+    VSet { name: "bcf-raw", fmt: VFmt::Bcf, cm: None, magic: Magic::Bcf, explicit: true },
+];
+
+static REPO: LazyLock<fasta::Repository> = LazyLock::new(aln::repository);
+static ADOCS: LazyLock<Vec<aln::AlnDoc>> = LazyLock::new(aln::docs);
+static VDOCS: LazyLock<Vec<var::VarDoc>> = LazyLock::new(var::docs);
+
+/// Interns dynamic tag names (`Chooser::tag` wants `&'static str`); bounded by the setting tables.
+fn intern(s: String) -> &'static str {
+    static T: LazyLock<Mutex<HashMap<String, &'static str>>> = LazyLock::new(Default::default);
+    let mut g = T.lock().unwrap();
+    if let Some(x) = g.get(&s) {
+        return x;
+    }
+    let l: &'static str = Box::leak(s.clone().into_boxed_str());
+    g.insert(s, l);
+    l
+}
+
+// ---------------------------------------------------------------------------------------------
+// independent container classification (no noodles reader involved)
+
+/// (is gzip/BGZF, magic of the uncompressed stream), from the leading bytes and an own inflate.
+fn classify(bytes: &[u8]) -> Result<(bool, Magic), String> {
+    let (gz, plain): (bool, Vec<u8>) = if bytes.starts_with(&[0x1f, 0x8b]) {
+        let members = ob::walk(bytes)?;
+        let mut cat = Vec::new();
+        for m in &members {
+            cat.extend_from_slice(&m.data);
+            if cat.len() >= 8 {
+                break;
+            }
+        }
+        (true, cat)
+    } else {
+        (false, bytes[..bytes.len().min(8)].to_vec())
+    };
+    // SAM text begins with '@' or a printable read name, VCF text with '#': a binary magic is the
+    // letters *plus* the non-printable version byte that follows them in the specifications
+    // (BAM\1; CRAM + major version 1..=3; BCF\2)
+    let magic = if plain.starts_with(b"BAM\x01") {
+        Magic::Bam
+    } else if plain.starts_with(b"CRAM") && plain.get(4).is_some_and(|b| (1..=3).contains(b)) {
+        Magic::Cram
+    } else if plain.starts_with(b"BCF\x02") {
+        Magic::Bcf
+    } else {
+        Magic::Text
+    };
+    Ok((gz, magic))
+}
+
+fn container_name(gz: bool, m: Magic) -> String {
+    format!("{}{}", format!("{m:?}").to_lowercase(), if gz { "+bgzf" } else { "+none" })
+}
+
+// ---------------------------------------------------------------------------------------------
+// delivery of the bytes to the reader
+
+#[derive(Clone, Copy, Debug, PartialEq)]
+enum Delivery {
+    Slice,
+    /// The first `read` call returns n bytes, every later call as much as fits.
+    FirstRead(usize),
+    OneByte,
+    /// Sizes 1, 2, 3, 7, 5, 1, ... (no `Interrupted`: EINTR handling is C12's subject).
+    IrregularSizes,
+}
+
+impl Delivery {
+    fn class(&self) -> String {
+        match self {
+            Delivery::Slice => "slice".into(),
+            // class level: what is decidable from the first window
+            Delivery::FirstRead(1) => "short-first-read-1".into(),
+            Delivery::FirstRead(2..=3) => "short-first-read-2..3".into(),
+            Delivery::FirstRead(4..=17) => "short-first-read-4..17".into(),
+            Delivery::FirstRead(_) => "short-first-read-18+".into(),
+            Delivery::OneByte => "short-reads-one-byte".into(),
+            Delivery::IrregularSizes => "short-reads-irregular".into(),
+        }
+    }
+    fn code(&self) -> String {
+        match self {
+            Delivery::Slice => "&bytes[..]".into(),
+            Delivery::FirstRead(n) => format!(
+                "FirstRead {{ inner: ChunkReader::new(bytes, ReadMode::Full, None), first: {n} }} /* first read() returns {n} byte(s) */"
+            ),
+            Delivery::OneByte => "ChunkReader::new(bytes, ReadMode::OneByte, None)".into(),
+            Delivery::IrregularSizes => "ChunkReader::new(bytes, ReadMode::Pattern(vec![1, 2, 3, 7, 5]), None)".into(),
+        }
+    }
+}
+
+/// Limits the first `read` of the wrapped `ChunkReader` to `first` bytes.
+struct FirstRead {
+    inner: ChunkReader,
+    first: Option<usize>,
+}
+
+impl Read for FirstRead {
+    fn read(&mut self, buf: &mut [u8]) -> io::Result<usize> {
+        match self.first.take() {
+            Some(n) => {
+                let n = n.min(buf.len());
+                self.inner.read(&mut buf[..n])
+            }
+            None => self.inner.read(buf),
+        }
+    }
+}
+
+fn source(bytes: &Arc<Vec<u8>>, d: Delivery) -> Box<dyn Read> {
+    match d {
+        Delivery::Slice => Box::new(io::Cursor::new(bytes.as_ref().clone())),
+        Delivery::FirstRead(n) => Box::new(FirstRead {
+            inner: ChunkReader::new(bytes.clone(), ReadMode::Full, None),
+            first: Some(n),
+        }),
+        Delivery::OneByte => Box::new(ChunkReader::new(bytes.clone(), ReadMode::OneByte, None)),
+        Delivery::IrregularSizes => {
+            Box::new(ChunkReader::new(bytes.clone(), ReadMode::Pattern(vec![1, 2, 3, 7, 5]), None))
+        }
+    }
+}
+
+// ---------------------------------------------------------------------------------------------
+// read logs
+
+#[derive(Clone, Debug, PartialEq)]
+enum ReadOut {
+    Ok(Vec<String>),
+    Err { stage: &'static str, kind: io::ErrorKind, msg: String, partial: Vec<String> },
+    Panic { msg: String, file: String },
+}
+
+impl ReadOut {
+    /// Class-level description for fingerprints.
+    fn class(&self) -> String {
+        match self {
+            ReadOut::Ok(_) => "ok".into(),
+            ReadOut::Err { stage, kind, .. } => format!("err@{stage}:{kind:?}"),
+            ReadOut::Panic { msg, file } => format!("panic:{}@{file}", vmc::normalise_msg(msg)),
+        }
+    }
+    fn text(&self) -> String {
+        match self {
+            ReadOut::Ok(l) => format!("Ok: header + {} record(s)", l.len().saturating_sub(1)),
+            ReadOut::Err { stage, kind, msg, partial } => {
+                format!("Err at {stage}: {kind:?} {msg:?} after {} log entries", partial.len())
+            }
+            ReadOut::Panic { msg, file } => format!("panic {msg:?} in {file}"),
+        }
+    }
+}
+
+fn rerr(stage: &'static str, e: io::Error, partial: &[String]) -> ReadOut {
+    ReadOut::Err { stage, kind: e.kind(), msg: e.to_string(), partial: partial.to_vec() }
+}
+
+fn read_aln(src: Box<dyn Read>, force: Option<ASet>, fold: bool, cap: usize) -> ReadOut {
+    let r = vmc::catch(move || {
+        let mut b = noodles_util::alignment::io::reader::Builder::default()
+            .set_reference_sequence_repository(REPO.clone());
+        if let Some(s) = force {
+            b = b.set_format(s.fmt).set_compression_method(s.cm);
+        }
+        let mut r = match b.build_from_reader(src) {
+            Ok(r) => r,
+            Err(e) => return rerr("build", e, &[]),
+        };
+        let h = match r.read_header() {
+            Ok(h) => h,
+            Err(e) => return rerr("read_header", e, &[]),
+        };
+        let mut log = vec![aln::header_key(&h)];
+        for rec in r.records(&h) {
+            let rec = match rec {
+                Ok(x) => x,
+                Err(e) => return rerr("records", e, &log),
+            };
+            match aln::record_key(&h, &rec, fold) {
+                Ok(k) => log.push(k),
+                Err(e) => return rerr("record-fields", e, &log),
+            }
+            if log.len() > cap {
+                return rerr("records", io::Error::other("vmc: iteration cap (reader does not terminate)"), &log);
+            }
+        }
+        ReadOut::Ok(log)
+    });
+    match r {
+        Ok(o) => o,
+        Err((msg, file)) => ReadOut::Panic { msg, file },
+    }
+}
+
+fn read_var(src: Box<dyn Read>, force: Option<VSet>, cap: usize) -> ReadOut {
+    let r = vmc::catch(move || {
+        let mut b = noodles_util::variant::io::reader::Builder::default();
+        if let Some(s) = force {
+            b = b.set_format(s.fmt).set_compression_method(s.cm);
+        }
+        let mut r = match b.build_from_reader(src) {
+            Ok(r) => r,
+            Err(e) => return rerr("build", e, &[]),
+        };
+        let h = match r.read_header() {
+            Ok(h) => h,
+            Err(e) => return rerr("read_header", e, &[]),
+        };
+        let mut log = vec![var::header_key(&h)];
+        for rec in r.records(&h) {
+            let rec = match rec {
+                Ok(x) => x,
+                Err(e) => return rerr("records", e, &log),
+            };
+            match var::record_key(&h, rec.as_ref()) {
+                Ok(k) => log.push(k),
+                Err(e) => return rerr("record-fields", e, &log),
+            }
+            if log.len() > cap {
+                return rerr("records", io::Error::other("vmc: iteration cap (reader does not terminate)"), &log);
+            }
+        }
+        ReadOut::Ok(log)
+    });
+    match r {
+        Ok(o) => o,
+        Err((msg, file)) => ReadOut::Panic { msg, file },
+    }
+}
+
+// ---------------------------------------------------------------------------------------------
+// writers
+
+fn write_aln(set: ASet, doc: &aln::AlnDoc) -> io::Result<Vec<u8>> {
+    let sink = vmc::env::FaultSink::plain();
+    {
+        let mut b = noodles_util::alignment::io::writer::Builder::default()
+            .set_format(set.fmt)
+            .set_reference_sequence_repository(REPO.clone());
+        if set.explicit {
+            b = b.set_compression_method(set.cm);
+        }
+        let mut w = b.build_from_writer(sink.clone())?;
+        w.write_header(&doc.header)?;
+        for r in &doc.records {
+            w.write_record(&doc.header, r)?;
+        }
+        w.finish(&doc.header)?;
+    }
+    Ok(sink.bytes())
+}
+
+fn write_var(set: VSet, doc: &var::VarDoc) -> io::Result<Vec<u8>> {
+    let sink = vmc::env::FaultSink::plain();
+    {
+        let mut b = noodles_util::variant::io::writer::Builder::default().set_format(set.fmt);
+        if set.explicit {
+            b = b.set_compression_method(set.cm);
+        }
+        let mut w = b.build_from_writer(sink.clone());
+        w.write_header(&doc.header)?;
+        for r in &doc.records {
+            w.write_record(&doc.header, r)?;
+        }
+    }
+    Ok(sink.bytes())
+}
+
+fn doc_class(name: &str) -> &'static str {
+    if name == "empty" {
+        "empty-header"
+    } else if name.starts_with("headerless") {
+        "headerless-records"
+    } else {
+        "with-header"
+    }
+}
+
+fn diff(expected: &ReadOut, got: &ReadOut) -> String {
+    match (expected, got) {
+        (ReadOut::Ok(a), ReadOut::Ok(b)) => gdocs::first_diff(a, b),
+        _ => format!("{} vs {}", expected.text(), got.text()),
+    }
+}
+
+fn content_symptom(expected: &[String], got: &ReadOut) -> String {
+    match got {
+        ReadOut::Ok(l) => {
+            if l.first() != expected.first() {
+                "header-differs".into()
+            } else if l.len() != expected.len() {
+                "record-count-differs".into()
+            } else {
+                "record-differs".into()
+            }
+        }
+        other => other.class(),
+    }
+}
+
+// ---------------------------------------------------------------------------------------------
+// harness bodies
+
+fn deliveries(first_max: usize, extra: &[usize]) -> Vec<Delivery> {
+    let mut v = vec![Delivery::Slice];
+    for n in (1..=first_max).chain(extra.iter().copied()) {
+        v.push(Delivery::FirstRead(n));
+    }
+    v.push(Delivery::OneByte);
+    v.push(Delivery::IrregularSizes);
+    v
+}
+
+/// What the written bytes are, by the independent classification.
+fn aset_of(bytes: &[u8]) -> Option<ASet> {
+    let (gz, magic) = classify(bytes).ok()?;
+    ASETS.iter().copied().find(|x| x.cm.is_some() == gz && x.magic == magic)
+}
+
+fn vset_of(bytes: &[u8]) -> Option<VSet> {
+    let (gz, magic) = classify(bytes).ok()?;
+    VSETS.iter().copied().find(|x| x.cm.is_some() == gz && x.magic == magic)
+}
+
+/// (W) the writer builder produces the requested container.
+fn container_check(
+    ch: &Chooser,
+    family: &str,
+    requested_name: &str,
+    requested: (bool, Magic),
+    doc_name: &str,
+    decoded: String,
+    bytes: &[u8],
+    content_intact_as_actual: impl FnOnce() -> &'static str,
+) -> Outcome {
+    let fp = |rest: String| {
+        format!("family={family} stage=write requested={requested_name} doc={} {rest}", doc_class(doc_name))
+    };
+    match classify(bytes) {
+        Ok((gz, magic)) => {
+            ch.obs(container_name(gz, magic));
+            ch.obs_hash(bytes.len());
+            if (gz, magic) != requested {
+                let content = content_intact_as_actual();
+                return Err(Violation::new(
+                    fp(format!(
+                        "symptom=wrong-container expected={} actual={} {content}",
+                        container_name(requested.0, requested.1),
+                        container_name(gz, magic)
+                    )),
+                    decoded,
+                    container_name(requested.0, requested.1),
+                    format!(
+                        "{}; file starts {}",
+                        container_name(gz, magic),
+                        vmc::hex(&bytes[..bytes.len().min(24)])
+                    ),
+                ));
+            }
+            Ok(())
+        }
+        Err(e) => Err(Violation::new(
+            fp("symptom=malformed-bgzf".into()),
+            decoded,
+            "well-formed BGZF",
+            e,
+        )),
+    }
+}
+
+fn aln_container(ch: &Chooser) -> Outcome {
+    let all: Vec<ASet> = ASETS.iter().chain(ASETS_DEFAULT.iter()).copied().collect();
+    let set = *ch.pick_free("requested", &all);
+    let doc = ch.pick_free("doc", &ADOCS[..]);
+    let decoded = format!(
+        "alignment::io::writer::Builder::default().set_format({:?}){}.build_from_writer(sink); write document `{}` ({} records); finish; look at the leading bytes (gzip magic; magic of the inflated stream)",
+        set.fmt,
+        if set.explicit { format!(".set_compression_method({:?})", set.cm) } else { " /* compression method not set */".to_string() },
+        doc.name, doc.records.len()
+    );
+    ch.desc(|| decoded.clone());
+    match vmc::catch(|| write_aln(set, doc)) {
+        Ok(Ok(bytes)) => {
+            let fold = set.fmt == AFmt::Cram;
+            container_check(
+                ch,
+                "alignment",
+                set.name,
+                (set.cm.is_some(), set.magic),
+                doc.name,
+                decoded,
+                &bytes,
+                || match aset_of(&bytes) {
+                    Some(x) => {
+                        let o = read_aln(source(&Arc::new(bytes.clone()), Delivery::Slice), Some(x), fold, bytes.len() + 1000);
+                        if o == ReadOut::Ok(aln::doc_log(doc, fold)) { "content-intact" } else { "content-differs" }
+                    }
+                    None => "unreadable",
+                },
+            )
+        }
+        Ok(Err(e)) => {
+            ch.obs(format!("write-err {:?}", e.kind()));
+            if set.fmt == AFmt::Cram && set.cm.is_some() {
+                ch.tag("writer builder rejects cram+bgzf");
+                // the reader builder must refuse the combination as well
+                let r = read_aln(source(&Arc::new(Vec::new()), Delivery::Slice), Some(set), false, 10);
+                if !matches!(r, ReadOut::Err { stage: "build", .. }) {
+                    return Err(Violation::new(
+                        format!("family=alignment stage=forced-read requested=cram.gz symptom=cram+bgzf-accepted-by-reader:{}", r.class()),
+                        "reader forced to (Cram, Some(Bgzf)) on an empty source",
+                        "Err from build_from_reader",
+                        r.text(),
+                    ));
+                }
+                ch.tag("reader builder rejects cram+bgzf");
+                return Ok(());
+            }
+            Err(Violation::new(
+                format!("family=alignment stage=write requested={} doc={} symptom=writer-error:{:?}", set.name, doc_class(doc.name), e.kind()),
+                decoded,
+                "Ok",
+                e.to_string(),
+            ))
+        }
+        Err((msg, file)) => Err(Violation::new(
+            format!("family=alignment stage=write requested={} doc={} symptom=panic:{}@{file}", set.name, doc_class(doc.name), vmc::normalise_msg(&msg)),
+            decoded,
+            "Ok",
+            format!("panic {msg}"),
+        )),
+    }
+}
+
+fn var_container(ch: &Chooser) -> Outcome {
+    let all: Vec<VSet> = VSETS.iter().chain(VSETS_DEFAULT.iter()).copied().collect();
+    let set = *ch.pick_free("requested", &all);
+    let doc = ch.pick_free("doc", &VDOCS[..]);
+    let decoded = format!(
+        "variant::io::writer::Builder::default().set_format({:?}){}.build_from_writer(sink); write document `{}` ({} records); drop; look at the leading bytes (gzip magic; magic of the inflated stream)",
+        set.fmt,
+        if set.explicit { format!(".set_compression_method({:?})", set.cm) } else { " /* compression method not set */".to_string() },
+        doc.name, doc.records.len()
+    );
+    ch.desc(|| decoded.clone());
+    match vmc::catch(|| write_var(set, doc)) {
+        Ok(Ok(bytes)) => container_check(
+            ch,
+            "variant",
+            set.name,
+            (set.cm.is_some(), set.magic),
+            doc.name,
+            decoded,
+            &bytes,
+            || match vset_of(&bytes) {
+                Some(x) => {
+                    let o = read_var(source(&Arc::new(bytes.clone()), Delivery::Slice), Some(x), bytes.len() + 1000);
+                    if o == ReadOut::Ok(var::doc_log(doc)) { "content-intact" } else { "content-differs" }
+                }
+                None => "unreadable",
+            },
+        ),
+        Ok(Err(e)) => Err(Violation::new(
+            format!("family=variant stage=write requested={} doc={} symptom=writer-error:{:?}", set.name, doc_class(doc.name), e.kind()),
+            decoded,
+            "Ok",
+            e.to_string(),
+        )),
+        Err((msg, file)) => Err(Violation::new(
+            format!("family=variant stage=write requested={} doc={} symptom=panic:{}@{file}", set.name, doc_class(doc.name), vmc::normalise_msg(&msg)),
+            decoded,
+            "Ok",
+            format!("panic {msg}"),
+        )),
+    }
+}
+
+/// Fingerprint tail of a detection mismatch. The document class is part of the class only for the
+/// plain-slice delivery (where the only thing that varies is the file).
+fn detect_fp(del: Delivery, doc_name: &str, auto: &ReadOut, taken_for: Option<&str>) -> String {
+    let doc = if del == Delivery::Slice { format!(" doc={}", doc_class(doc_name)) } else { String::new() };
+    match taken_for {
+        Some(x) => format!("delivery={}{doc} symptom=taken-for-{x}", del.class()),
+        None => format!("delivery={}{doc} symptom=hint-free-{}", del.class(), auto.class()),
+    }
+}
+
+fn aln_detect(ch: &Chooser, dels: &[Delivery]) -> Outcome {
+    // the *requested* setting is enumerated so that every writer path produces files; verdicts
+    // are keyed by what the file actually is (the labelling is `alignment_container`'s subject)
+    let req = *ch.pick_free("requested", &ASETS[..5]);
+    let doc = ch.pick_free("doc", &ADOCS[..]);
+    let del = *ch.pick_free("delivery", dels);
+    let bytes = match vmc::catch(|| write_aln(req, doc)) {
+        Ok(Ok(b)) => b,
+        _ => {
+            ch.obs("write failed (judged by alignment_container)");
+            return Ok(());
+        }
+    };
+    let Some(set) = aset_of(&bytes) else {
+        ch.obs("unclassifiable (judged by alignment_container)");
+        return Ok(());
+    };
+    let fold = set.fmt == AFmt::Cram;
+    let bytes = Arc::new(bytes);
+    let decoded = |what: &str| {
+        format!(
+            "bytes = document `{}` ({} records; gdocs::aln::docs()) written by alignment::io::writer::Builder as {} (file is {}, {} bytes); {what}; source = {}",
+            doc.name, doc.records.len(), req.name, set.name, bytes.len(), del.code()
+        )
+    };
+    ch.desc(|| decoded("hint-free alignment::io::reader::Builder::default().build_from_reader(source)"));
+    let fp = |stage: &str, rest: String| format!("family=alignment stage={stage} written={} {rest}", set.name);
+    let cap = bytes.len() + 1000;
+    let expected = aln::doc_log(doc, fold);
+
+    // (F) forced to the written setting, same delivery
+    let forced = read_aln(source(&bytes, del), Some(set), fold, cap);
+    if forced != ReadOut::Ok(expected.clone()) {
+        return Err(Violation::new(
+            fp("forced-read", format!("delivery={} doc={} symptom={}", del.class(), doc_class(doc.name), content_symptom(&expected, &forced))),
+            decoded("reader forced to the written (format, compression): read_header, records"),
+            format!("the written document: header + {} record(s)", doc.records.len()),
+            diff(&ReadOut::Ok(expected.clone()), &forced),
+        ));
+    }
+
+    // (D) hint-free
+    let auto = read_aln(source(&bytes, del), None, fold, cap);
+    ch.obs_hash((&set.name, &doc.name, auto.class()));
+    if auto != forced {
+        // which forced setting behaves like the hint-free reader did? (names the misdetection)
+        // several forced settings may fail identically; name the first in the order
+        // uncompressed text, uncompressed binary, compressed
+        let taken_for = [ASETS[0], ASETS[4], ASETS[3], ASETS[2], ASETS[1]]
+            .iter()
+            .filter(|x| **x != set)
+            .find(|x| read_aln(source(&bytes, Delivery::Slice), Some(**x), fold, cap) == auto)
+            .map(|x| x.name);
+        return Err(Violation::new(
+            fp("detect", detect_fp(del, doc.name, &auto, taken_for)),
+            decoded("hint-free alignment::io::reader::Builder::default().build_from_reader(source), read_header, records"),
+            format!("exactly what the reader forced to ({:?}, {:?}) returns: {}", set.fmt, set.cm, forced.text()),
+            format!(
+                "{}; {}; {}",
+                auto.text(),
+                match taken_for {
+                    Some(x) => format!("identical to the reader forced to `{x}`"),
+                    None => "no forced setting behaves like this".to_string(),
+                },
+                diff(&forced, &auto)
+            ),
+        ));
+    }
+
+    // recorded, not judged: other forced settings that also read this file as the written document
+    if del == Delivery::Slice {
+        for x in ASETS[..5].iter().filter(|x| **x != set) {
+            let o = read_aln(source(&bytes, Delivery::Slice), Some(*x), fold, cap);
+            if o == forced {
+                ch.tag(intern(format!("{} [{}] also readable when forced to {}", set.name, doc.name, x.name)));
+            }
+        }
+    }
+    ch.steps(3);
+    Ok(())
+}
+
+fn var_detect(ch: &Chooser, dels: &[Delivery]) -> Outcome {
+    let req = *ch.pick_free("requested", &VSETS);
+    let doc = ch.pick_free("doc", &VDOCS[..]);
+    let del = *ch.pick_free("delivery", dels);
+    let bytes = match vmc::catch(|| write_var(req, doc)) {
+        Ok(Ok(b)) => b,
+        _ => {
+            ch.obs("write failed (judged by variant_container)");
+            return Ok(());
+        }
+    };
+    let Some(set) = vset_of(&bytes) else {
+        ch.obs("unclassifiable (judged by variant_container)");
+        return Ok(());
+    };
+    let bytes = Arc::new(bytes);
+    let decoded = |what: &str| {
+        format!(
+            "bytes = document `{}` ({} records; gdocs::var::docs()) written by variant::io::writer::Builder as {} (file is {}, {} bytes); {what}; source = {}",
+            doc.name, doc.records.len(), req.name, set.name, bytes.len(), del.code()
+        )
+    };
+    ch.desc(|| decoded("hint-free variant::io::reader::Builder::default().build_from_reader(source)"));
+    let fp = |stage: &str, rest: String| format!("family=variant stage={stage} written={} {rest}", set.name);
+    let cap = bytes.len() + 1000;
+    let expected = var::doc_log(doc);
+
+    // (F)
+    let forced = read_var(source(&bytes, del), Some(set), cap);
+    if forced != ReadOut::Ok(expected.clone()) {
+        return Err(Violation::new(
+            fp("forced-read", format!("delivery={} doc={} symptom={}", del.class(), doc_class(doc.name), content_symptom(&expected, &forced))),
+            decoded("reader forced to the written (format, compression): read_header, records"),
+            format!("the written document: header + {} record(s)", doc.records.len()),
+            diff(&ReadOut::Ok(expected.clone()), &forced),
+        ));
+    }
+
+    // (D)
+    let auto = read_var(source(&bytes, del), None, cap);
+    ch.obs_hash((&set.name, &doc.name, auto.class()));
+    if auto != forced {
+        let taken_for = [VSETS[0], VSETS[3], VSETS[2], VSETS[1]]
+            .iter()
+            .filter(|x| **x != set)
+            .find(|x| read_var(source(&bytes, Delivery::Slice), Some(**x), cap) == auto)
+            .map(|x| x.name);
+        return Err(Violation::new(
+            fp("detect", detect_fp(del, doc.name, &auto, taken_for)),
+            decoded("hint-free variant::io::reader::Builder::default().build_from_reader(source), read_header, records"),
+            format!("exactly what the reader forced to ({:?}, {:?}) returns: {}", set.fmt, set.cm, forced.text()),
+            format!(
+                "{}; {}; {}",
+                auto.text(),
+                match taken_for {
+                    Some(x) => format!("identical to the reader forced to `{x}`"),
+                    None => "no forced setting behaves like this".to_string(),
+                },
+                diff(&forced, &auto)
+            ),
+        ));
+    }
+
+    if del == Delivery::Slice {
+        for x in VSETS.iter().filter(|x| **x != set) {
+            let o = read_var(source(&bytes, Delivery::Slice), Some(*x), cap);
+            if o == forced {
+                ch.tag(intern(format!("{} [{}] also readable when forced to {}", set.name, doc.name, x.name)));
+            }
+        }
+    }
+    ch.steps(3);
+    Ok(())
+}
+
+// Conversions read source and result with the reader forced to the independently classified
+// container, so that a conversion verdict is neither a detection nor a labelling verdict.
+
+fn aln_convert(ch: &Chooser) -> Outcome {
+    let sets = &ASETS[..5];
+    let a = *ch.pick_free("from", sets);
+    let b = *ch.pick_free("to", sets);
+    let doc = ch.pick_free("doc", &ADOCS[..]);
+    let fold = a.fmt == AFmt::Cram || b.fmt == AFmt::Cram;
+    let decoded = || {
+        format!(
+            "write document `{}` ({} records) with the generic alignment writer as {}; then, as in examples/util_alignment_rewrite.rs: reader.read_header(); writer({}).write_header(&header); for r in reader.records(&header) {{ writer.write_record(&header, &r?) }}; writer.finish(&header); read the result",
+            doc.name, doc.records.len(), a.name, b.name
+        )
+    };
+    ch.desc(decoded);
+    let fp = |rest: String| format!("family=alignment stage=convert from={} to={} doc={} {rest}", a.name, b.name, doc_class(doc.name));
+    let v = |rest: String, exp: String, obs: String| Err(Violation::new(fp(rest), decoded(), exp, obs));
+
+    let src = match vmc::catch(|| write_aln(a, doc)) {
+        Ok(Ok(x)) => x,
+        other => return v("symptom=source-write-failed".into(), "Ok".into(), format!("{other:?}")),
+    };
+    let Some(aset) = aset_of(&src) else {
+        return v("symptom=source-unclassifiable".into(), "a known container".into(), vmc::hex(&src));
+    };
+    let piped = vmc::catch(|| -> io::Result<Vec<u8>> {
+        let mut r = noodles_util::alignment::io::reader::Builder::default()
+            .set_reference_sequence_repository(REPO.clone())
+            .set_format(aset.fmt)
+            .set_compression_method(aset.cm)
+            .build_from_reader(&src[..])?;
+        let header = r.read_header()?;
+        let sink = vmc::env::FaultSink::plain();
+        {
+            let mut w = noodles_util::alignment::io::writer::Builder::default()
+                .set_format(b.fmt)
+                .set_compression_method(b.cm)
+                .set_reference_sequence_repository(REPO.clone())
+                .build_from_writer(sink.clone())?;
+            w.write_header(&header)?;
+            let mut n = 0;
+            for rec in r.records(&header) {
+                let rec = rec?;
+                w.write_record(&header, &rec)?;
+                n += 1;
+                if n > src.len() + 1000 {
+                    return Err(io::Error::other("vmc: iteration cap"));
+                }
+            }
+            w.finish(&header)?;
+        }
+        Ok(sink.bytes())
+    });
+    let dst = match piped {
+        Ok(Ok(x)) => x,
+        Ok(Err(e)) => {
+            return v(
+                format!("symptom=pipe-error:{:?}", e.kind()),
+                "Ok".into(),
+                e.to_string(),
+            );
+        }
+        Err((msg, file)) => {
+            return v(
+                format!("symptom=panic:{}@{file}", vmc::normalise_msg(&msg)),
+                "Ok".into(),
+                format!("panic {msg}"),
+            );
+        }
+    };
+    let Some(bset) = aset_of(&dst) else {
+        return v("symptom=target-unclassifiable".into(), "a known container".into(), vmc::hex(&dst));
+    };
+    let expected = aln::doc_log(doc, fold);
+    let got = read_aln(source(&Arc::new(dst.clone()), Delivery::Slice), Some(bset), fold, dst.len() + 1000);
+    ch.obs_hash((&a.name, &b.name, &doc.name, got.class(), dst.len()));
+    if got != ReadOut::Ok(expected.clone()) {
+        return v(
+            format!("symptom={}", content_symptom(&expected, &got)),
+            format!("the original document: header + {} record(s)", doc.records.len()),
+            diff(&ReadOut::Ok(expected), &got),
+        );
+    }
+    ch.steps(2);
+    Ok(())
+}
+
+fn var_convert(ch: &Chooser) -> Outcome {
+    let a = *ch.pick_free("from", &VSETS);
+    let b = *ch.pick_free("to", &VSETS);
+    let doc = ch.pick_free("doc", &VDOCS[..]);
+    let decoded = || {
+        format!(
+            "write document `{}` ({} records) with the generic variant writer as {}; then, as in examples/util_variant_rewrite.rs: reader.read_header(); writer({}).write_header(&header); for r in reader.records(&header) {{ writer.write_record(&header, r?.as_ref()) }}; drop(writer); read the result",
+            doc.name, doc.records.len(), a.name, b.name
+        )
+    };
+    ch.desc(decoded);
+    let fp = |rest: String| format!("family=variant stage=convert from={} to={} doc={} {rest}", a.name, b.name, doc_class(doc.name));
+    let v = |rest: String, exp: String, obs: String| Err(Violation::new(fp(rest), decoded(), exp, obs));
+
+    let src = match vmc::catch(|| write_var(a, doc)) {
+        Ok(Ok(x)) => x,
+        other => return v("symptom=source-write-failed".into(), "Ok".into(), format!("{other:?}")),
+    };
+    let Some(aset) = vset_of(&src) else {
+        return v("symptom=source-unclassifiable".into(), "a known container".into(), vmc::hex(&src));
+    };
+    let piped = vmc::catch(|| -> io::Result<Vec<u8>> {
+        let mut r = noodles_util::variant::io::reader::Builder::default()
+            .set_format(aset.fmt)
+            .set_compression_method(aset.cm)
+            .build_from_reader(&src[..])?;
+        let header = r.read_header()?;
+        let sink = vmc::env::FaultSink::plain();
+        {
+            let mut w = noodles_util::variant::io::writer::Builder::default()
+                .set_format(b.fmt)
+                .set_compression_method(b.cm)
+                .build_from_writer(sink.clone());
+            w.write_header(&header)?;
+            let mut n = 0;
+            for rec in r.records(&header) {
+                let rec = rec?;
+                w.write_record(&header, rec.as_ref())?;
+                n += 1;
+                if n > src.len() + 1000 {
+                    return Err(io::Error::other("vmc: iteration cap"));
+                }
+            }
+        }
+        Ok(sink.bytes())
+    });
+    let dst = match piped {
+        Ok(Ok(x)) => x,
+        Ok(Err(e)) => {
+            return v(format!("symptom=pipe-error:{:?}", e.kind()), "Ok".into(), e.to_string());
+        }
+        Err((msg, file)) => {
+            return v(
+                format!("symptom=panic:{}@{file}", vmc::normalise_msg(&msg)),
+                "Ok".into(),
+                format!("panic {msg}"),
+            );
+        }
+    };
+    let Some(bset) = vset_of(&dst) else {
+        return v("symptom=target-unclassifiable".into(), "a known container".into(), vmc::hex(&dst));
+    };
+    let expected = var::doc_log(doc);
+    let got = read_var(source(&Arc::new(dst.clone()), Delivery::Slice), Some(bset), dst.len() + 1000);
+    ch.obs_hash((&a.name, &b.name, &doc.name, got.class(), dst.len()));
+    if got != ReadOut::Ok(expected.clone()) {
+        return v(
+            format!("symptom={}", content_symptom(&expected, &got)),
+            format!("the original document: header + {} record(s)", doc.records.len()),
+            diff(&ReadOut::Ok(expected), &got),
+        );
+    }
+    ch.steps(2);
+    Ok(())
+}
+
 fn main() {
-    println!("MACHINERY-ERROR property=C20 check not built yet");
-    std::process::exit(2);
+    vmc::run("C20", "model_checking", |ctx| {
+        ctx.rule(
+            "complete products, every choice free: detect = (format, compression) x {empty header, header only, 1 record, 3 records} x delivery \
+             {slice; first read() returns n bytes for every n in 1..=N; 1 byte per read; irregular}; convert = all ordered (source, target) \
+             settings x record set. distinct = distinct observation logs (container observed, outcome class of the hint-free read / converted length)",
+        );
+        ctx.assume("container classification oracle: own gzip member walk (miniz_oxide + crc32fast) and the magic numbers BAM\\1, CRAM, BCF\\2 from the specifications");
+        ctx.assume("records are compared through gdocs keys rendered from the public accessors after RecordBuf::try_from_{alignment,variant}_record (integer aux numerically, floats by bits, aux fields order-insensitive, VCF samples modulo trailing missing values, CRAM bases case-folded)");
+        ctx.assume("conversions read the source with the reader forced to the independently classified container, so a conversion verdict is not a detection verdict");
+
+        // quick: every first-read size that can split a magic number or the BGZF header/first block
+        // header (1..=32); thorough: every first-read size up to 600 (longer than the largest
+        // first BGZF member of any document here)
+        let first_max = ctx.by_tier(32, 600);
+        // around the 8 KiB BufReader capacity and the 64 KiB BGZF block limit (large-header document)
+        let extra: &[usize] = ctx.by_tier(&[100, 8191, 8192, 8193], &[1000, 4096, 8191, 8192, 8193, 16384, 65535, 65536, 65537]);
+        let dels = deliveries(first_max, extra);
+        ctx.harness(Config::new("alignment_container", 0), aln_container);
+        ctx.harness(Config::new("variant_container", 0), var_container);
+        ctx.harness(Config::new("alignment_detect", 0), |ch| aln_detect(ch, &dels));
+        ctx.harness(Config::new("variant_detect", 0), |ch| var_detect(ch, &dels));
+        ctx.harness(Config::new("alignment_convert", 0), aln_convert);
+        ctx.harness(Config::new("variant_convert", 0), var_convert);
+    });
 }
